@@ -1139,15 +1139,16 @@ func (e *specEnv) selector(n *ast.SelectorExpr) Term {
 			path := sel.Index()
 			// walk to the final field keeping the last struct for the field heap
 			for k, i := range path {
-				if p, ok := T.Underlying().(*types.Pointer); ok {
-					// embedded pointer: load it
-					base = e.loadAt(base, T, nil)
-					T = p.Elem()
-				}
 				si := tt.structOf(T)
 				fi := si.fields[i]
 				if k == len(path)-1 {
 					return e.loadAt(bvAdd(base, i64(fi.offset)), fi.typ, &ptrDesc{kind: pdField, base: base, si: si, field: i})
+				}
+				if p, ok := fi.typ.Underlying().(*types.Pointer); ok {
+					// promoted through an embedded pointer field: load that field, continue in the pointee
+					base = e.loadAt(bvAdd(base, i64(fi.offset)), fi.typ, &ptrDesc{kind: pdField, base: base, si: si, field: i})
+					T = p.Elem()
+					continue
 				}
 				base = bvAdd(base, i64(fi.offset))
 				T = fi.typ
